@@ -499,10 +499,16 @@ impl ItemizedBlock {
             line_start = itemized_block_quote_start(line, line_start, 2);
             indent = line_start.len();
         }
+        // Block quote markers need not be separated by single spaces, so the computed indent may
+        // point past the end of the line or inside a character.
+        let mut split = indent.min(line.len());
+        while !line.is_char_boundary(split) {
+            split -= 1;
+        }
         Some(ItemizedBlock {
-            lines: vec![line[indent..].to_string()],
+            lines: vec![line[split..].to_string()],
             indent,
-            opener: line[..indent].to_string(),
+            opener: line[..split].to_string(),
             line_start,
         })
     }
